@@ -1,4 +1,4 @@
-(* `resolve fl ast = resolve_spec ast` (Resolve/ResolveSpec.v) is FALSE whenever one of the four
+(* `resolve fl ast = resolve_spec (imports_fixpoint fl) ast` (Resolve/ResolveSpec.v) is FALSE whenever one of the four
    flags is off: four witnesses, one per flag.  Each is the AST (as the parser produces it) of
 
      start :: fn do                 start :: fn do                       start :: fn do
@@ -50,16 +50,16 @@ Definition w_else : past :=
 Definition is_ok {A} (r : res A) : bool := match r with Ok _ => true | _ => false end.
 
 Lemma w_if_refutes : forall fl, if_truncates fl = false ->
-  is_ok (resolve fl w_if) = true /\ resolve_spec w_if = Err [mkRErr ENothingMatched (s_ 5)].
-Proof. intros [[] [] [] []] H; try discriminate H; split; vm_compute; reflexivity. Qed.
+  is_ok (resolve fl w_if) = true /\ resolve_spec (imports_fixpoint fl) w_if = Err [mkRErr ENothingMatched (s_ 5)].
+Proof. intros [[] [] [] [] []] H; try discriminate H; split; vm_compute; reflexivity. Qed.
 
 Lemma w_case_refutes : forall fl, case_truncates fl = false ->
-  is_ok (resolve fl w_case) = true /\ resolve_spec w_case = Err [mkRErr ENothingMatched (s_ 6)].
-Proof. intros [[] [] [] []] H; try discriminate H; split; vm_compute; reflexivity. Qed.
+  is_ok (resolve fl w_case) = true /\ resolve_spec (imports_fixpoint fl) w_case = Err [mkRErr ENothingMatched (s_ 6)].
+Proof. intros [[] [] [] [] []] H; try discriminate H; split; vm_compute; reflexivity. Qed.
 
 Lemma w_else_refutes : forall fl, else_truncates fl = false ->
-  is_ok (resolve fl w_else) = true /\ resolve_spec w_else = Err [mkRErr ENothingMatched (s_ 7)].
-Proof. intros [[] [] [] []] H; try discriminate H; split; vm_compute; reflexivity. Qed.
+  is_ok (resolve fl w_else) = true /\ resolve_spec (imports_fixpoint fl) w_else = Err [mkRErr ENothingMatched (s_ 7)].
+Proof. intros [[] [] [] [] []] H; try discriminate H; split; vm_compute; reflexivity. Qed.
 
 (* `b.value` where b is a parameter and also the name of an imported namespace:
      main.sy:  use b    A :: blob { value: int }    f :: fn b: A do b.value end    start :: fn do end
@@ -97,10 +97,10 @@ Definition res_eqb_ok (r r' : res resolved) : Prop :=
   match r, r' with Ok x, Ok x' => x = x' | _, _ => False end.
 
 Lemma w_nsfield_refutes : forall fl, access_local_first fl = false ->
-  is_ok (resolve fl w_nsfield) = true /\ is_ok (resolve_spec w_nsfield) = true
-  /\ resolve fl w_nsfield <> resolve_spec w_nsfield.
+  is_ok (resolve fl w_nsfield) = true /\ is_ok (resolve_spec (imports_fixpoint fl) w_nsfield) = true
+  /\ resolve fl w_nsfield <> resolve_spec (imports_fixpoint fl) w_nsfield.
 Proof.
-  intros [[] [] [] []] H; try discriminate H; (split; [vm_compute; reflexivity|split; [vm_compute; reflexivity|]]);
+  intros [[] [] [] [] []] H; try discriminate H; (split; [vm_compute; reflexivity|split; [vm_compute; reflexivity|]]);
     vm_compute; intros E; discriminate E.
 Qed.
 
@@ -110,7 +110,7 @@ Definition all_restore (fl : rflags) : bool :=
 (* if the code leaves any of the three scopes open, the resolver is not the specification: it accepts a
    program in which a variable is used outside the scope that declares it *)
 Theorem resolve_refines_refuted : forall fl, all_restore fl = false ->
-  exists ast, is_ok (resolve fl ast) = true /\ resolve fl ast <> resolve_spec ast.
+  exists ast, is_ok (resolve fl ast) = true /\ resolve fl ast <> resolve_spec (imports_fixpoint fl) ast.
 Proof.
   intros fl H. unfold all_restore in H.
   destruct (if_truncates fl) eqn:E1.
